@@ -26,7 +26,7 @@ API_INV = ['WF', 'C11_Slice', 'C12_Slice', 'C12_OnePerMatch', 'C12_IncludeEmpty'
 
 ASSUME = ['the match list of an emitted pattern is what CPython re.finditer/fullmatch return for str(pattern) under MULTILINE|DOTALL '
           '(the harness computes it independently of the library call)',
-          'patterns come from a fixed catalogue of 30 DSL expressions; texts are all strings over {a, b, newline} up to the stated length '
+          'patterns come from a fixed catalogue of 32 DSL expressions; texts are all strings over {a, b, newline} up to the stated length '
           '(plus non-ASCII multi-line contents for file sources)',
           'histories are bounded as stated; each history is replayed on a rotating selection of patterns and texts',
           'split_by_capture is only judged when the captured spans are ordered and disjoint, replace only with plain replacement strings']
@@ -35,6 +35,7 @@ ASSUME = ['the match list of an emitted pattern is what CPython re.finditer/full
 def texts_for(tier, nonascii=False):
     n = 3 if tier == 'quick' else 4
     out = [''.join(p) for k in range(0, n + 1) for p in itertools.product('ab\n', repeat=k)]
+    out += ["'ab'", "a'b'\n'a", '"a"b""']
     if nonascii:
         out += ['äa€b\nab', 'a\nb一a\n', '\U0001F600ab\nAB', 'bß\na']
     return out
